@@ -52,6 +52,8 @@ var dcFieldSrc = map[string]string{
 	"untaggedDep":   "U Untagged",
 	// an instantiation whose type argument is a named type of the package; the generic struct is first met through this field
 	"genericNamedArg": "GN ZPair[string, Level]",
+	// a defined map whose name sorts after the root type's: it is first met as a dependency of the root type
+	"definedMapLate": "ZM ZMap",
 }
 
 var dcDeps = map[string]string{
@@ -63,6 +65,7 @@ var dcDeps = map[string]string{
 	"mapOfDefined":    "// MyInt is a defined scalar.\ntype MyInt int\n",
 	"genericInst":     "// Gen is a generic struct.\ntype Gen[X any] struct {\n\tV X\n\tL []int\n}\n",
 	"untaggedDep":     "// Untagged is a dependency without its own tag.\ntype Untagged struct {\n\tL []int\n}\n",
+	"definedMapLate":  "// ZMap is a defined map; its name sorts after the root type's.\ntype ZMap map[string]int\n",
 	"genericNamedArg": "// ZPair is generic; its name sorts after the root type's, so it is first met as a dependency.\ntype ZPair[K comparable, V any] struct {\n\tKey K\n\tVal V\n\tM   map[string]int\n}\n\n// Level is a defined scalar used as a type argument.\ntype Level int\n",
 }
 
